@@ -295,8 +295,60 @@ func (x *c03Interp) eval(fr *c03Frame, st *c03State, e ast.Expr) []c03EV {
 		return out
 	case *ast.SliceExpr:
 		var out []c03EV
+		bounds := []ast.Expr{}
+		for _, b := range []ast.Expr{e.Low, e.High} {
+			if b != nil {
+				bounds = append(bounds, b)
+			}
+		}
 		for _, ev := range x.eval(fr, st, e.X) {
-			out = append(out, c03EV{ev.st, &c03V{K: c03KUnk, T: t, Key: x.fresh("s"), From: []*c03V{ev.v}, Z: triU}})
+			for _, bo := range x.evalList(fr, ev.st, bounds) {
+				v := ev.v
+				if v.K == c03KAddr || v.K == c03KPtr { // slicing through a pointer to an array
+					if pv := bo.st.Pointee(v); pv != nil {
+						v = pv
+					}
+				}
+				lo, hi, known := int64(0), int64(-1), true
+				i := 0
+				if e.Low != nil {
+					if bo.vs[i].K == c03KInt {
+						lo = bo.vs[i].Int
+					} else {
+						known = false
+					}
+					i++
+				}
+				if e.High != nil {
+					if bo.vs[i].K == c03KInt {
+						hi = bo.vs[i].Int
+					} else {
+						known = false
+					}
+				}
+				switch {
+				case known && lo == 0 && hi < 0 && e.Max == nil:
+					// x[:] is x (an array becomes the slice of all its elements)
+					out = append(out, c03EV{bo.st, c03Retype(v, t)})
+				case known && v.K == c03KList && v.Base == nil && !c03HasSpread(v) && e.Max == nil:
+					n := int64(len(v.Elems))
+					if hi < 0 {
+						hi = n
+					}
+					if lo <= hi && hi <= n {
+						l := *v
+						l.T, l.Elems = t, append([]*c03V{}, v.Elems[lo:hi]...)
+						if len(v.Keys) == len(v.Elems) {
+							l.Keys = append([]*c03V{}, v.Keys[lo:hi]...)
+						}
+						out = append(out, c03EV{bo.st, &l})
+						break
+					}
+					fallthrough
+				default:
+					out = append(out, c03EV{bo.st, &c03V{K: c03KUnk, T: t, Key: x.fresh("s"), From: []*c03V{v}, Z: triU}})
+				}
+			}
 		}
 		return out
 	case *ast.FuncLit:
@@ -530,6 +582,11 @@ func (x *c03Interp) compareEq(st *c03State, a, b *c03V) (tri, string) {
 	if c03IsZeroLit(a) && !c03IsZeroLit(b) {
 		return st.Zero(b), c03ZeroKey(b)
 	}
+	for _, pr := range [][2]*c03V{{a, b}, {b, a}} {
+		if k, c := pr[0], pr[1]; k.IsInit("key") && len(k.Path) == 0 && c.K == c03KInt && c.Int < 0 {
+			return triF, "" // a range index is never negative
+		}
+	}
 	// an unknown string compared with a constant: consult / record what the path found out about it
 	if (a.K == c03KInit || a.K == c03KUnk) && a.Key != "" && b.K == c03KStr {
 		if s, ok := st.strs[a.Key]; ok {
@@ -630,6 +687,19 @@ func (x *c03Interp) evalCond(fr *c03Frame, st *c03State, e ast.Expr) []c03CV {
 				if a.K == c03KInt && b.K != c03KInt { // c op x  ->  x op' c
 					a, b = b, a
 					op = map[token.Token]token.Token{token.LSS: token.GTR, token.GTR: token.LSS, token.LEQ: token.GEQ, token.GEQ: token.LEQ}[op]
+				}
+				// the index a range statement binds is never negative
+				if a.IsInit("key") && len(a.Path) == 0 && b.K == c03KInt && b.Int <= 0 {
+					if bt, ok := a.T.Underlying().(*types.Basic); ok && bt.Info()&types.IsInteger != 0 {
+						switch {
+						case op == token.GEQ && b.Int <= 0, op == token.GTR && b.Int < 0:
+							out = append(out, c03CV{o.st, true})
+							continue
+						case op == token.LSS && b.Int <= 0, op == token.LEQ && b.Int < 0:
+							out = append(out, c03CV{o.st, false})
+							continue
+						}
+					}
 				}
 				if a.K == c03KInt && b.K == c03KInt {
 					r := map[token.Token]bool{token.LSS: a.Int < b.Int, token.GTR: a.Int > b.Int, token.LEQ: a.Int <= b.Int, token.GEQ: a.Int >= b.Int}[op]
@@ -1279,6 +1349,41 @@ func c03FoldString(fn *types.Func, args []*c03V) (string, bool) {
 		if n, ok := vals[0].(int64); ok {
 			return strconv.FormatInt(n, 10), true
 		}
+	}
+	return "", false
+}
+
+// c03BytesConst: v is a constant string, or a byte slice assembled on the path from constants only (single bytes,
+// spread string constants): the text it holds.
+func c03BytesConst(v *c03V) (string, bool) {
+	if v == nil {
+		return "", false
+	}
+	switch v.K {
+	case c03KStr:
+		return v.Str, true
+	case c03KList:
+		if v.Base != nil {
+			return "", false
+		}
+		var sb strings.Builder
+		for _, e := range v.Elems {
+			switch {
+			case e.K == c03KInt && e.Int >= 0 && e.Int < 256:
+				sb.WriteByte(byte(e.Int))
+			case e.K == c03KStr:
+				sb.WriteString(e.Str)
+			case e.K == c03KSpread && len(e.From) == 1:
+				s, ok := c03BytesConst(e.From[0])
+				if !ok {
+					return "", false
+				}
+				sb.WriteString(s)
+			default:
+				return "", false
+			}
+		}
+		return sb.String(), true
 	}
 	return "", false
 }
